@@ -103,13 +103,71 @@ pub fn apply(ws: &mut Workspace, op: &J) -> J {
   }
 }
 
+/// A restart of the workspace on a directory: the files of the models `ms` (ids of the alphabet) are written below a
+/// fresh directory - at the top, one and two levels down, in turn - next to files that are no models (another
+/// extension, text that is no XML, XML that is no DMN model, an empty file), `Workspace::new(Some(dir))` is called and the
+/// directory removed. The event names the candidates: the models written into `*.dmn` files.
+fn load_dir(ms: &[String]) -> (Workspace, J) {
+  static N: std::sync::atomic::AtomicUsize = std::sync::atomic::AtomicUsize::new(0);
+  let base = std::path::PathBuf::from(std::env::var("VERIF_DIR").unwrap_or_else(|_| "/verif".to_string())).join("work/C17/dirs");
+  let dir = base.join(format!("d{}_{}", std::process::id(), N.fetch_add(1, std::sync::atomic::Ordering::Relaxed)));
+  let put = |rel: &str, text: &str| {
+    let f = dir.join(rel);
+    if let Some(p) = f.parent() {
+      std::fs::create_dir_all(p).unwrap_or_else(|e| tool_error(&format!("cannot create {}: {}", p.display(), e)));
+    }
+    std::fs::write(&f, text).unwrap_or_else(|e| tool_error(&format!("cannot write {}: {}", f.display(), e)));
+  };
+  std::fs::create_dir_all(&dir).unwrap_or_else(|e| tool_error(&format!("cannot create {}: {}", dir.display(), e)));
+  for (k, id) in ms.iter().enumerate() {
+    let (id, ns, nm, b) = ALPHABET.iter().find(|m| m.0 == id).unwrap_or_else(|| tool_error(&format!("unknown model {}", id)));
+    let rel = match k % 3 {
+      0 => format!("{}.dmn", id),
+      1 => format!("sub/{}.dmn", id),
+      _ => format!("sub/deeper/{}.dmn", id),
+    };
+    put(&rel, &alphabet_model(id, ns, nm, *b));
+  }
+  put("notes.txt", "not a model");
+  put("sub/broken.dmn", "<definitions");
+  put("other.dmn", "<?xml version=\"1.0\"?><html><body/></html>");
+  put("empty.dmn", "");
+  let ws = crate::util::silenced(|| Workspace::new(Some(dir.clone())));
+  let _ = std::fs::remove_dir_all(&dir);
+  let ev = observe(&ws, json!({"ev": "load", "cands": ms}), "ok");
+  (ws, ev)
+}
+
 pub fn run_path(path: &[J]) -> Vec<J> {
   let mut ws = Workspace::new(None);
   let mut out = vec![json!({"ev": "reset"})];
   for op in path {
-    out.push(apply(&mut ws, op));
+    if op["op"] == "load" {
+      let ms: Vec<String> = op["ms"].as_array().map(|a| a.iter().map(|x| x.as_str().unwrap_or("").to_string()).collect()).unwrap_or_default();
+      let (w, ev) = load_dir(&ms);
+      ws = w;
+      out.push(ev);
+    } else {
+      out.push(apply(&mut ws, op));
+    }
   }
   out
+}
+
+/// A random set of models for a directory: clashing files welcome.
+fn random_load(rng: &mut Rng, big: bool, wide: bool) -> J {
+  let mut ms = vec![];
+  let n_models = if big { N_CORE } else { 6 };
+  for m in ALPHABET.iter().take(if wide { ALPHABET.len() } else { n_models }) {
+    if rng.below(100) < if wide { 70 } else { 45 } {
+      ms.push(m.0);
+    }
+  }
+  // a shuffled order decides which file lands at which depth
+  for i in (1..ms.len()).rev() {
+    ms.swap(i, rng.below(i as u64 + 1) as usize);
+  }
+  json!({"op": "load", "ms": ms})
 }
 
 fn random_path(rng: &mut Rng, len: usize, big: bool) -> Vec<J> {
@@ -181,6 +239,8 @@ fn signature(events: &[J], at: usize) -> Vec<String> {
       let partial = prev_stored.iter().any(|(a, b)| (a == ns) != (b == nm));
       sigs.push(format!("{}:{}", ev, if partial { "one-key-clash" } else { "exact-or-none" }));
     }
+  } else if ev == "load" {
+    sigs.push("load".to_string());
   } else {
     sigs.push(ev.to_string());
   }
@@ -269,17 +329,38 @@ pub fn check(mut ctx: Ctx, replay: Option<J>) -> ! {
   // --- 3. random histories
   let mut rng = Rng::new(ctx.seed);
   let (n_hist, len) = if quick { (40, 200) } else { (400, 300) };
-  for _ in 0..n_hist {
-    let path = random_path(&mut rng, len, !quick);
+  let mut n_loads = 0u64;
+  for h in 0..n_hist {
+    let mut path = random_path(&mut rng, len, !quick);
+    // every second history starts on a directory of model files, and is restarted on another one somewhere on its way
+    if h % 2 == 1 {
+      path.insert(0, random_load(&mut rng, !quick, false));
+      let at = 1 + rng.below(path.len() as u64 - 1) as usize;
+      path.insert(at, random_load(&mut rng, !quick, false));
+      n_loads += 2;
+    }
     let events = run_path(&path);
     runs.push((path, events));
   }
   let n_wide = if quick { 30 } else { 300 };
-  for _ in 0..n_wide {
-    let path = random_path_wide(&mut rng, 60);
+  for h in 0..n_wide {
+    let mut path = random_path_wide(&mut rng, 60);
+    if h % 2 == 1 {
+      path.insert(0, random_load(&mut rng, true, true));
+      n_loads += 1;
+    }
     let events = run_path(&path);
     runs.push((path, events));
   }
+  // directories alone: many random sets of files, clashing ones among them
+  for _ in 0..(if quick { 150 } else { 1500 }) {
+    let wide = rng.below(3) == 0;
+    let path = vec![random_load(&mut rng, true, wide), json!({"op": "eval", "nm": rng.pick(NAMES)})];
+    let events = run_path(&path);
+    runs.push((path, events));
+    n_loads += 1;
+  }
+  ctx.cov("restarts_on_a_directory_of_model_files_in_random_histories", json!(n_loads));
   ctx.cov("random_histories_wide_alphabet", json!(n_wide));
   ctx.cov("random_histories", json!(n_hist));
   ctx.cov("random_history_length", json!(len));
@@ -309,24 +390,23 @@ pub fn check(mut ctx: Ctx, replay: Option<J>) -> ! {
 fn judge(ctx: &mut Ctx, tlc: &Tlc, runs: Vec<(Vec<J>, Vec<J>)>, tag: &str) {
   // concatenate into shards on path boundaries
   let shards = if runs.len() > 200 { 8 } else { 1 };
-  let per = (runs.len() + shards - 1) / shards;
   let mut total_events = 0u64;
   let mut outs = vec![];
   std::thread::scope(|sc| {
     let mut hs = vec![];
     for k in 0..shards {
-      let lo = k * per;
-      let hi = ((k + 1) * per).min(runs.len());
-      if lo >= hi {
-        continue;
-      }
+      // the runs are dealt to the shards in turn (the long random histories come last: contiguous blocks would leave
+      // one shard with all of them)
       let mut recs = vec![];
       let mut owner = vec![]; // event index -> (run index, event index in run)
-      for (ri, (_, evs)) in runs[lo..hi].iter().enumerate() {
+      for (ri, (_, evs)) in runs.iter().enumerate().filter(|(ri, _)| ri % shards == k) {
         for (ei, e) in evs.iter().enumerate() {
           recs.push(e.clone());
-          owner.push((lo + ri, ei));
+          owner.push((ri, ei));
         }
+      }
+      if recs.is_empty() {
+        continue;
       }
       total_events += recs.len() as u64;
       let file = tlc.write_ndjson(&format!("trace_{}_{}.ndjson", tag, k), &recs);
@@ -349,6 +429,9 @@ fn judge(ctx: &mut Ctx, tlc: &Tlc, runs: Vec<(Vec<J>, Vec<J>)>, tag: &str) {
       tool_error("Trace_C17 did not consume the whole trace");
     }
     events_checked += n as u64;
+    // beyond the property (reported, no alarm): a directory load that skipped a model file nothing clashes with
+    let notes = out.lines.iter().filter(|l| l.starts_with("<<\"NOTE\"")).count() as u64;
+    ctx.cov_add("directory_loads_that_skipped_a_file_without_a_clash_(reported_only)", notes);
     for (l, why) in out.rejects() {
       let (ri, ei) = owner[l - 1];
       let (path, events) = &runs[ri];
